@@ -26,11 +26,18 @@ type scen struct {
 	Release string // before | after   (gate opened before / after the stop was requested)
 	Fail    string // "" | poison:<k> | panic:<nodePrefix>:<k> | runpanic:<nodePrefix>
 	Racing  int    // >0: a writer goroutine keeps offering this many extra points while the stop runs
-	Waiters int    // goroutines already blocked in ExecutingTask.Wait() when the stop is requested (task_store has one per task)
+	// Overflow: N is MORE than fits in front of the stall: when the stop is requested the TaskMaster's forking
+	// goroutine is parked inside forkPoint -> Collect on the task's full source edge (and the rest of the
+	// acknowledged points waits in the ingest edge); a neighbour task on the same db/rp keeps receiving
+	Overflow bool
+	Waiters  int // goroutines already blocked in ExecutingTask.Wait() when the stop is requested (task_store has one per task)
 }
 
 func (s scen) key() string {
 	k := fmt.Sprintf("%s/n%d/%s/%s/%s/%s/r%d", s.Pipe, s.N, s.Stop, s.Stall, s.Release, s.Fail, s.Racing)
+	if s.Overflow {
+		k += "/overflow"
+	}
 	if s.Waiters > 0 {
 		k += fmt.Sprintf("/w%d", s.Waiters)
 	}
@@ -58,7 +65,12 @@ type pipeSpec struct {
 }
 
 type outcome struct {
-	Accepted    []int            // seq numbers acknowledged by WritePoints (nil error), in order
+	Accepted []int // seq numbers acknowledged by WritePoints (nil error), in order
+	// Overflow scenarios stopped with StopTask/DeleteTask: the first Certain sequence numbers had been collected
+	// into the task's source edge when the stop was requested (they are the task's); the acknowledged rest was
+	// still in the forking goroutine's hand or in the ingest edge (the task may get the next one or two, no more)
+	Certain     int
+	Neighbor    []int            // what the neighbour task's sink had seen after the whole environment was closed
 	AtReturn    map[string][]int // per output: seqs delivered when the stop call returned
 	Final       map[string][]int // per output: seqs delivered after everything was shut down
 	Refused     map[string]int   // loopback: writes refused with a reported error
@@ -190,6 +202,11 @@ func runAttempt(sc scen, post *postSink, dl deadlines) (*outcome, *attempt, erro
 	if spec.Second != nil {
 		if _, err := env.StartTask(a.id+"b", spec.Second(a), kapacitor.StreamTask, []kapacitor.DBRP{{Database: "db2", RetentionPolicy: "rp"}}); err != nil {
 			return nil, nil, fmt.Errorf("second task: %v", err)
+		}
+	}
+	if sc.Overflow {
+		if _, err := env.StartTask(a.id+"nb", `stream|from().measurement('m')|log().prefix('nb')`, kapacitor.StreamTask, rt.DefaultDBRP); err != nil {
+			return nil, nil, fmt.Errorf("neighbour task: %v", err)
 		}
 	}
 	if strings.HasPrefix(sc.Stop, "TS") {
@@ -326,6 +343,23 @@ func runAttempt(sc scen, post *postSink, dl deadlines) (*outcome, *attempt, erro
 		if !waitFor(dl.Step, func() bool { return bq.ready() }) {
 			return nil, nil, fmt.Errorf("batch source: queries were not issued within %v", dl.Step)
 		}
+	} else if sc.Overflow {
+		// the ingest side is stuck: the forking goroutine sits in forkPoint -> Collect on the task's full source
+		// edge (parked, and the edge's collected counter stands still)
+		last := int64(-1)
+		if !waitFor(dl.Step, func() bool {
+			c := sourceCollected(a.id)
+			ok := c == last && c > 0 && c < int64(sc.N) && forkerParkedInCollect()
+			last = c
+			if ok {
+				time.Sleep(2 * time.Millisecond)
+				ok = sourceCollected(a.id) == c && forkerParkedInCollect()
+			}
+			return ok
+		}) {
+			return nil, nil, fmt.Errorf("overflow: the forking goroutine did not park in Collect within %v (collected %d of %d)", dl.Step, sourceCollected(a.id), sc.N)
+		}
+		out.Certain = int(sourceCollected(a.id))
 	} else if !waitFor(dl.Step, func() bool {
 		return sourceCollected(a.id) >= int64(sc.N) || (sc.Fail != "" && nodeFailed(diag))
 	}) {
@@ -635,6 +669,13 @@ func runAttempt(sc scen, post *postSink, dl deadlines) (*outcome, *attempt, erro
 			return nil, nil, fmt.Errorf("the environment did not close within %v after the stop call had returned", dl.Stop)
 		}
 		out.Final = a.delivered()
+		if sc.Overflow {
+			for _, it := range diag.SinkItems("nb") {
+				if it.Point != nil {
+					out.Neighbor = append(out.Neighbor, toInt(it.Point.Fields()["seq"]))
+				}
+			}
+		}
 	} else {
 		out.Final = out.AtReturn
 		envClosed = true // a hung TaskMaster cannot be closed; the process ends soon anyway
@@ -657,6 +698,25 @@ func runAttempt(sc scen, post *postSink, dl deadlines) (*outcome, *attempt, erro
 	}
 	sort.Ints(out.Accepted)
 	return out, a, nil
+}
+
+// forkerParkedInCollect: the TaskMaster's forking goroutine is blocked in forkPoint -> edge.Collect.
+func forkerParkedInCollect() bool {
+	for _, g := range parseStacks(allStacks()) {
+		fp, col := false, false
+		for _, f := range g.Frames {
+			if strings.HasSuffix(f, "(*TaskMaster).forkPoint") {
+				fp = true
+			}
+			if strings.HasSuffix(f, "(*channelEdge).Collect") {
+				col = true
+			}
+		}
+		if fp && col && g.blocked() {
+			return true
+		}
+	}
+	return false
 }
 
 // sourceCollected: number of points the TaskMaster has forked into the task's source edge
